@@ -304,6 +304,11 @@ func genC02(t *rapid.T) c02Case {
 	c.Configs = append(c.Configs, cacheCfg{AttrTTLns: 1, AttrSize: 2}) // baseline first
 	idx := rapid.Permutation(c02CachedConfigs).Draw(t, "cfgs")
 	c.Configs = append(c.Configs, idx[:k]...)
+	if rapid.IntRange(0, 3).Draw(t, "conn") == 0 {
+		for i := range c.Configs {
+			c.Configs[i].Conn = true
+		}
+	}
 	return c
 }
 
@@ -689,6 +694,7 @@ func runNsConfig(tb stat.TB, id, check string, c any, ops []c02Op, cfg cacheCfg)
 	cfg.apply(&opts)
 	s := newSession(tb, v, opts)
 	defer s.close()
+	s.e.ViaConn = cfg.Conn
 	abandoned = guard(func() {
 		cl = newNsClient(s, v)
 		for _, op := range ops {
